@@ -7,10 +7,9 @@
 import PS.Spec.Fragment
 namespace PS
 
-/-- a task group declared at top level, not optional: its two assertions-with-helpers are asserted as they are -/
+/-- a task group declared at top level (optional or not; not an operand of a connective) -/
 def Constr.isGroup (c : Constr) : Bool :=
-  !c.operand && !c.optional &&
-    (match c.body with | .unorderedGroup .. => true | .orderedGroup .. => true | _ => false)
+  !c.operand && (match c.body with | .unorderedGroup .. => true | .orderedGroup .. => true | _ => false)
 
 /-- the problem without its top-level task groups -/
 def State.noGroups (st : State) : State := { st with constrs := st.constrs.filter (fun c => !c.isGroup) }
@@ -42,5 +41,13 @@ def State.freshGroups (st : State) : Bool :=
 /-- the problem without its top-level groups is in the exactness fragment, and the groups are of the kind
     `Groups.lean` handles -/
 def State.fragmentGroupsB (st : State) : Bool := st.noGroups.fragmentB && st.groupsOK && st.freshGroups
+
+end PS
+
+namespace PS
+
+/-- several objectives and task groups: the problem without its objectives passes the test above, and nothing mentions the
+    two variables of the weighted combination -/
+def State.fragmentGroupsMultiB (st : State) : Bool := st.noObj.fragmentGroupsB && st.freshEquiv
 
 end PS
